@@ -19,6 +19,7 @@ func checkC03(c *Check) {
 	c.handlerDiscipline("C03.4 handler-discipline")
 	c.holdTimerDrainAndReset("C03.4 no-spurious-expiry")
 	c.writeUpdateContract("C03.4 handler-not-wedged")
+	c.restartAfterHandler("C03.4 restart-after-handler")
 	// single sender / single receiver of the message channel
 	p := c.P
 	senders, receivers := map[string]bool{}, map[string]bool{}
